@@ -70,7 +70,7 @@ inductive Step (c : Cfg) : St → St → Prop
           if mis' > 1 then setT { s0 with watchers := s0.watchers - 1 } i .exited
           else setT s0 i (.sleeping (s0.now + c.idle) mis' true)
         | some (id, fireT) =>
-          if s0.now > fireT then
+          if s0.now ≥ fireT then
             let heap' := s0.heap.filter (·.1 != id)
             let s1 : St := { s0 with heap := heap' }
             let spawn := match headOf heap' with
